@@ -109,6 +109,7 @@ def gen(t, tier):
         sc['coverage'] = [fx, fy, fx + t.randint(1, 6) / 8.0 + t.pick([0, 1 / 32.0]), fy + t.randint(1, 6) / 8.0]
     else:
         sc['coverage'] = None
+    sc['cov_srs'] = t.pick(['3857', '3857', '4326'])
     if sc['coverage'] and t.chance(0.4):
         # upper/right edges just beyond a tile border of a coarse level (resolved against the grid at run time)
         sc['coverage'] = ['edge', t.choice(1000), t.choice(1000), t.choice(1000), t.choice(25)]
@@ -130,8 +131,9 @@ def shrink(sc):
                 c['k'] = min(c['k'], len(c['tiles']) - 1)
                 yield c
         size //= 2
-    for key, simple in (('coverage', None), ('meta_size', [1, 1]), ('salt', None), ('after', 0.0), ('cache_refresh', None)):
-        if sc[key] != simple:
+    for key, simple in (('coverage', None), ('cov_srs', '3857'), ('meta_size', [1, 1]), ('salt', None), ('after', 0.0),
+                        ('cache_refresh', None)):
+        if sc.get(key, simple) != simple:
             c = copy.deepcopy(sc)
             c[key] = simple
             yield c
@@ -362,6 +364,13 @@ def run(sc, tape):
             cconf['coverages'] = sorted(cov_confs)
         elif cov:
             seed_conf['coverages'] = {'cov': {'bbox': cov, 'srs': 'EPSG:3857'}}
+            if sc.get('cov_srs') == '4326' and max(abs(v) for v in cov) < 0.999 * U.H:
+                # the same area spelled in geographic coordinates (inverse Mercator written out here)
+                import math
+
+                def ll(x, y):
+                    return [math.degrees(x / 6378137.0), math.degrees(2 * math.atan(math.exp(y / 6378137.0)) - math.pi / 2)]
+                seed_conf['coverages'] = {'cov': {'bbox': ll(cov[0], cov[1]) + ll(cov[2], cov[3]), 'srs': 'EPSG:4326'}}
             cconf['coverages'] = ['cov']
         t_conf0 = clock.now
         sconf = SeedingConfiguration(seed_conf, mapproxy_conf=pc)
